@@ -159,6 +159,20 @@ fn oracle_generated(case: &[u8], obs: &mut Obs) -> Result<(), String> {
     Ok(())
 }
 
+/// raw mode (libFuzzer): the input is the complete file
+pub fn oracle_raw(case: &[u8], obs: &mut Obs) -> Result<(), String> {
+    if case.len() > 70_000 {
+        return Ok(());
+    }
+    let seed = [3u8, 7, 9, 11, 13, 17, 19, 23, 29, 31, 37, 41, 43, 47, 53, 59, 61, 67, 71, 73, 79, 83, 89, 97, 101, 103, 107, 109, 113, 127, 131, 137];
+    let mut c = Choice::new(&seed);
+    let mut st = Stats { prefixes: 0, opened: 0, mixed: 0, ok_answers: 0, err_answers: 0, stream_prefixes: 0 };
+    check_file(case, &[b"memset".to_vec(), b"use_memset".to_vec()], &[], &mut c, 700, &mut st)?;
+    finish(&st, obs);
+    obs.describe(|| json!({"mode": "raw_file", "file_len": case.len(), "prefixes_tried": st.prefixes, "prefixes_that_open": st.opened}));
+    Ok(())
+}
+
 /// plain encoding: [sample index]: the linker-produced sample objects, 256 sampled prefix lengths each
 fn oracle_sample(case: &[u8], obs: &mut Obs) -> Result<(), String> {
     let all = inputs::samples();
@@ -196,7 +210,7 @@ pub fn property() -> Property {
         level: "fault_enumeration",
         rule: "crash points = prefix lengths. generated: a rich generated file (every section kind, segments, tables placed directly behind the ELF header in 84% of cases so that most prefixes still open; a minority with header overrides/corruption); EVERY prefix length 0..len-1 for files <= 4 KiB, otherwise 256 lengths (all structure boundaries +-1 plus random); a fixed query plan derived from the complete file (ehdr, counts, every section/program header, every section's data and typed views, section names, by-name lookups, both symbol tables with names, dynamic, hash lookups of all names, version queries) is evaluated to Result<content digest>; oracle: on a prefix every Ok answer equals the complete file's answer (slice parser on every prefix, stream parser on a third of them or all for files <= 1 KiB), and after appending 1..4096 arbitrary bytes every Ok answer of the file is unchanged and the file still opens. samples: the 10 linker-produced sample objects with 256 sampled prefix lengths each. Non-trivial: a base file with a prefix that still opens and on which at least one query is Ok and at least one is Err; distinct by file hash.",
         assumptions: &["the extension clause is checked in the sound direction only (an out-of-file range legitimately turns from Err to Ok when bytes are appended)", "digests cover content, not error kinds"],
-        subs: vec![Sub::new("generated", oracle_generated, 1400, 15_000, 500_000).shrink(400), Sub::enumerated("samples", oracle_sample, enum_samples, false)],
-        extra: None,
+        subs: vec![Sub::new("generated", oracle_generated, 1400, 15_000, 500_000).shrink(400), Sub::enumerated("samples", oracle_sample, enum_samples, false), Sub::new("generated_raw", oracle_raw, 300, 2_000, 20_000).shrink(400)],
+        extras: vec![crate::fuzz::c18_campaign],
     }
 }
